@@ -131,6 +131,24 @@ func HostsLines(thorough bool) []Family {
 		}
 		fams = append(fams, List("line_longnames", xs))
 	}
+	// names made of, or containing, white space beyond space and tab (the grammar separates fields on space and tab only: a
+	// field of U+00A0 is a *name*, and code that re-splits the line with a Unicode-aware splitter sees fewer fields)
+	{
+		var xs []string
+		for _, u := range []string{"\u0085", "\u00a0", "\u1680", "\u2000", "\u2003", "\u200a", "\u2028", "\u2029", "\u202f", "\u205f", "\u3000", "\ufeff", "\u200b", "\u180e", "\v", "\f", "\x1c", "\x1f"} {
+			shapes := []string{u, u + u, "a" + u, u + "a", "a" + u + "b", u + ".com", "a." + u, u + "." + u, "a" + u + u + "b.example"}
+			for _, a := range []string{"1.2.3.4", "::1"} {
+				for _, sep := range []string{" ", "\t"} {
+					for _, sh := range shapes {
+						for _, tr := range []string{"", " #c", sep + u, u} {
+							xs = append(xs, a+sep+sh+tr, a+sep+"ok.example"+sep+sh+tr, a+sep+sh+sep+"ok.example"+tr, a+sep+sh+sep+sh+tr, a+sep+"ok.example"+sep+sh+sep+"after.example"+sep+sh+tr, u+a+sep+sh+tr)
+						}
+					}
+				}
+			}
+		}
+		fams = append(fams, List("line_unicode_space", xs))
+	}
 	// very long fields of one byte value (error texts get shortened, buffers sized by powers of two)
 	{
 		var xs []string
